@@ -159,11 +159,16 @@ def run(ctx):
     lossy = mc.GEO_BASE.replace('Starting Electricity Sale Price, 0.12', 'Starting Electricity Sale Price, 0.02') \
         .replace('Ending Electricity Sale Price, 0.12', 'Ending Electricity Sale Price, 0.02')
     assert lossy != mc.GEO_BASE
-    outs = ['Average Net Electricity Production', 'Project NPV', 'Project VIR=PI=PIR', 'Project MOIC']
+    outs = ['Average Net Electricity Production', 'Electricity breakeven price', 'Project NPV', 'Project VIR=PI=PIR', 'Project MOIC']
     st['outputs'] = outs
     st['text'] = '\n'.join([ln for ln in st['text'].split('\n') if ln.startswith('INPUT')] + [f'OUTPUT, {o}' for o in outs]
                            + [f'ITERATIONS, {st["iterations"]}']) + '\n'
     st['base_text'] = lossy
+    # ... and one sampled name is a proper prefix of another parameter the base sets ('Inflation Rate During Construction')
+    inputs = [(nm, d) for nm, d in st['inputs'] if nm != 'Inflation Rate'] + [('Inflation Rate', ['uniform', 0.01, 0.04])]
+    st['inputs'] = inputs
+    st['text'] = '\n'.join([f'INPUT, {nm}, {d[0]}, ' + ', '.join(str(x) for x in d[1:]) for nm, d in inputs]
+                           + [f'OUTPUT, {o}' for o in outs] + [f'ITERATIONS, {st["iterations"]}']) + '\n'
     jobs.append({'fn': 'gxv.props.c14:mc14_job', 'args': {'settings': st, 'workers': 4, 'delay': 0.0, 'max_replay': ctx.pick(24, 80)},
                  'timeout': 1500})
     jobs.sort(key=lambda j: -j['args']['settings']['iterations'])
